@@ -33,6 +33,9 @@ rule("C07.k", "an index of one space (variable / mapping row / time step / restr
 rule("C08.f", "a sum of step lengths over the steps of selected mapping rows first reduces the rows to distinct steps (rows are not "
               "steps: two variables per step would count every step twice)", floor=1, props=["C08", "C02"])
 
+rule("C08.m", "the period of a take restriction is the period the user gave: start and end of the dictionary handed to define_restr are not "
+              "re-written from the grid or the asset's window (a period cut at the end of the contract or the horizon is prorated over the "
+              "shorter span: the quantity inside the horizon is no longer value x covered / (end - start))", floor=2)
 rule("C08.g", "a take volume is prorated by (covered step lengths) / (calendar length of the whole period): the denominator comes from "
               "the period's own start and end, never from the grid (which only knows the part inside the horizon)", floor=1)
 
@@ -374,7 +377,7 @@ def _rule_for(fn) -> str:
     return "C07.k"
 
 
-@analysis("spaces", ["C15.a", "C15.f", "C13.b", "C04.a", "C07.k", "C08.f", "C08.g", "C08.k"])
+@analysis("spaces", ["C15.a", "C15.f", "C13.b", "C04.a", "C07.k", "C08.f", "C08.g", "C08.k", "C08.m"])
 def run(ctx):
     p = ctx.p
     counts = {}
@@ -455,6 +458,48 @@ def run(ctx):
                                "share of the covered duration (max_take 100 over [Jan 6, Jan 16) on a horizon ending Jan 11: 100 instead of 50)"
                                % au.short(grid[0], 40) if grid else "the origin of the denominator was not recognised", node=d,
                                ok_detail="calendar length of the period")
+    # ================================================================= C08.m the take period is the user's
+    n_m = 0
+    for fn in sorted(p.all_functions(), key=lambda f: f.qualname):
+        if fn.parent is not None:
+            continue
+        for st in au.walk_stmts(fn.body):
+            for c in au.walk_own(st):
+                if not (isinstance(c, ast.Call) and au.method_name(c) == "define_restr"):
+                    continue
+                a0 = au.arg_or_kw(c, 0, "my_take")
+                if not isinstance(a0, ast.Name):
+                    continue
+                n_m += 1
+                arg = a0.id
+                bad = None
+                other = None
+                for s2 in au.walk_stmts(fn.body):
+                    if s2.lineno >= st.lineno or not isinstance(s2, (ast.Assign, ast.AugAssign)):
+                        continue
+                    for t0 in au.stmt_targets(s2):
+                        if isinstance(t0, ast.Subscript) and isinstance(t0.value, ast.Name) and t0.value.id == arg and au.const_str(t0.slice) in ("start", "end"):
+                            srcs = list(au.walk_local(s2.value))
+                            for x in list(srcs):
+                                if isinstance(x, ast.Name) and isinstance(x.ctx, ast.Load):
+                                    r = ctx.resolve(fn, x, s2)
+                                    if r is not x:
+                                        srcs += list(au.walk_local(r))
+                            grid = [x for x in srcs if isinstance(x, ast.Attribute) and x.attr in ("end", "start", "timepoints", "T") and
+                                    any(k in (au.dotted(x) or "") for k in ("timegrid", "restricted")) or
+                                    (isinstance(x, ast.Attribute) and au.path(x) in ("self.end", "self.start"))]
+                            if grid:
+                                bad = (s2, grid[0])
+                            else:
+                                other = s2
+                ctx.ob("C08.m", fn, "take period of %s" % au.short(c, 60), False if bad else (None if other else True),
+                       ("the '%s' of the take dictionary is re-written from %s (%s) before the restriction is built: define_restr prorates by the "
+                        "period's own end - start; a period cut at the contract's end / the horizon is spread over the shorter span - min_take 100 "
+                        "for a period reaching beyond a contract end outside the horizon: 193.5 inside the horizon instead of 100"
+                        % (au.const_str(bad[0].targets[0].slice) if isinstance(bad[0], ast.Assign) else "?", au.short(bad[1], 40), p.where(bad[0]))) if bad else
+                       ("start / end of the dictionary are re-written (%s) from a source this rule does not classify" % (p.where(other) if other else "")),
+                       node=c)
+    ctx.require(n_m >= 2, "fewer than 2 calls of define_restr found", rules=["C08.m"])
     dr = p.fn_opt("assets.define_restr")
     if dr is None:
         ctx.ob("C08.k", "assets", "define_restr", None, "define_restr not found")
